@@ -421,7 +421,9 @@ def run(chk: Check) -> None:
         "operator list and the variable pools is in the tokenizer's alphabet; (R4) complexity intervals under defaults are "
         "positive; (R5) in gen_combine_terms_in_place, gen_commute_haystack and gen_move_around_blockers_one/two - "
         "interpreted with every random number / variable as a fresh symbol and every coin flip forked - exactly two terms "
-        "carry the focus variable and their exponent text is the same draw. NOT decided (runtime quantities no static "
+        "carry the focus variable and their exponent text is the same draw; (R7) gen_simplify_multiple_terms (term counts 2-4, "
+        "thorough 2-6) emits, on every path of its coin flips and small integer draws, two terms with the same variable draw "
+        "and the same exponent draw. NOT decided (runtime quantities no static "
         "argument in reach bounds): that the generated text parses, that has_like_terms() agrees, behaviour for arbitrary "
         "seeds beyond the forked coin flips, the probabilistic retry bound, parameters without defaults, the non-pretty "
         "number mode's number text.")
@@ -433,10 +435,152 @@ def run(chk: Check) -> None:
     run_complexity(chk, prog)
     run_like_pair(chk, prog)
     run_text(chk, prog)
+    run_like_terms_promise(chk, prog)
     chk.max_undecided = 0
 
 
+# --------------------------------------------------------------------------- R7 promised like terms among the terms
+def run_like_terms_promise(chk: Check, prog: Program) -> None:
+    """gen_simplify_multiple_terms promises 'a polynomial problem with like terms that need to be combined': on every path
+    of the random choices (term counts 2..4, thorough ..6) two of the emitted terms carry the same variable draw and the
+    same exponent draw.  Shuffling does not matter (existence is order independent); the operators between terms are
+    draws and delimit the terms."""
+    chk.rule("C17.R7", "gen_simplify_multiple_terms: two of the emitted terms are the same variable draw with the same "
+             "exponent draw, on every path of the random choices", minimum=30)
+    mod = prog.module("problems")
+    name = "gen_simplify_multiple_terms"
+    if name not in mod.functions:
+        raise AnalysisError(f"generator {name} vanished")
+    f = mod.functions[name]
+    counts = (2, 3, 4) if chk.tier == "quick" else (2, 3, 4, 5, 6)
+    for num_terms in counts:
+        def body(it: Interp, num_terms=num_terms):
+            _install_generator_model(it, False)
+            return it.call_function(f, [], {"num_terms": num_terms})
+        n_paths = 0
+        seen_texts = set()
+        for p in explore(prog, body, {"max_updepth": 0, "max_steps": 60000, "budget_soft": True, "time_budget": 60},
+                         max_paths=20000):
+            it = p.interp
+            n_paths += 1
+            label = f"{name}(num_terms={num_terms}) :: {p.cond[-140:]}"
+            key = f"C17.R7:{name}"
+            if p.outcome == "bound":
+                chk.undecided("C17.R7", key + ":budget", label, p.note, f.where)
+                continue
+            if p.outcome == "raise":
+                # raising is R6's business (reported there); nothing is promised about a text that was not produced
+                continue
+            if not (isinstance(p.value, Tup) and len(p.value.items) == 2):
+                continue
+            text = p.value.items[0]
+            flat = _flatten_render(text) if isinstance(text, Render) else [text]
+            shown = render_str(flat)
+            if shown in seen_texts:
+                continue
+            seen_texts.add(shown)
+            terms: List[list] = [[]]
+            for part in flat:
+                if isinstance(part, tuple) and part[0] == "opaque" and part[1].startswith("op#"):
+                    terms.append([])
+                elif isinstance(part, str):
+                    # a literal operator spelled out in a format string delimits terms as well
+                    buf = part
+                    for lit in (" + ", " - "):
+                        buf = buf.replace(lit, "\0")
+                    pieces = buf.split("\0")
+                    for j, piece in enumerate(pieces):
+                        if j:
+                            terms.append([])
+                        if piece.strip(" ()"):
+                            terms[-1].append(piece.strip(" ()"))
+                else:
+                    terms[-1].append(part)
+            sigs = []
+            for t in terms:
+                vs = [x[1] for x in t if isinstance(x, tuple) and x[0] == "opaque" and x[1].startswith("var#")]
+                if len(vs) == 1:
+                    sigs.append((vs[0], exponent_part(tuple(t), vs[0])))
+            dup = len(sigs) != len(set(sigs))
+            chk.verdict(dup, "C17.R7", key, label + f" -> {shown}",
+                        "" if dup else f"no two terms of {shown!r} share variable and exponent: the promised like terms are missing "
+                        f"(terms: {[render_str(t) for t in terms]})",
+                        witness={"text": shown, "num_terms": num_terms, "path": p.cond[-300:]}, where=f.where)
+        chk.analysed[f"like_terms_promise_paths_{num_terms}"] = n_paths
+
+
 # --------------------------------------------------------------------------- R6 generated text is derivable
+def _install_generator_model(it: Interp, negative_numbers: bool) -> None:
+    """Random draws of the generators: coin flips and small integer ranges are forked, numbers / variables / operators /
+    exponents are symbols tagged with their kind and a serial number (the same draw reused is the same symbol)."""
+    it.draws = 0
+
+    def draw(tag):
+        it.draws += 1
+        return Opaque(f"{tag}#{it.draws}", truthy=True)
+
+    def h_randint(it2, path, args, kwargs):
+        if all(isinstance(a, int) for a in args):
+            lo, hi = args
+            if lo > hi:
+                raise AbsRaise("ValueError", it2.site, "empty range for randrange()")
+            if hi - lo <= 5:
+                return lo + it2.choose(hi - lo + 1, f"randint({lo},{hi})#{len(it2.decisions)}",
+                                       [str(x) for x in range(lo, hi + 1)])
+        return draw("int")
+    it.hooks["ext:random.randint"] = h_randint
+    it.hooks["ext:random.shuffle"] = lambda it2, path, args, kwargs: None
+    it.hooks["ext:random.uniform"] = lambda it2, path, args, kwargs: 0.5
+    it.hooks["ext:random.random"] = lambda it2, path, args, kwargs: 0.5
+
+    def h_choice(it2, path, args, kwargs):
+        items = args[0].items
+        return items[it2.choose(len(items), f"choice#{len(it2.decisions)}")]
+    it.hooks["ext:random.choice"] = h_choice
+
+    def h_rand_bool(it2, info, args, kwargs):
+        pc = args[0] if args else kwargs.get("percent_chance", 50)
+        if isinstance(pc, (int, float)):
+            if pc >= 100:
+                return True
+            if pc <= 0:
+                return False
+        return it2.choose(2, f"coin#{len(it2.decisions)}", ["heads", "tails"]) == 0
+    it.hooks["mathy_core/problems.py:rand_bool"] = h_rand_bool
+    it.hooks["mathy_core/problems.py:rand_number"] = lambda it2, info, args, kwargs: draw("neg" if negative_numbers else "num")
+    it.hooks["mathy_core/problems.py:rand_var"] = lambda it2, info, args, kwargs: draw("var")
+    it.hooks["mathy_core/problems.py:rand_op"] = lambda it2, info, args, kwargs: draw("op")
+
+    def h_maybe_number(it2, info, args, kwargs):
+        pc = args[0] if args else kwargs.get("percent_chance", 80)
+        or_else = args[1] if len(args) > 1 else kwargs.get("or_else", "")
+        if isinstance(pc, (int, float)) and pc >= 100:
+            return draw("neg" if negative_numbers else "num")
+        if (isinstance(pc, (int, float)) and pc <= 0) or or_else != "":
+            return NotImplemented
+        return draw("optneg" if negative_numbers else "optnum")
+    it.hooks["mathy_core/problems.py:maybe_number"] = h_maybe_number
+
+    def h_maybe_power(it2, info, args, kwargs):
+        pc = args[0] if args else kwargs.get("percent_chance", 80)
+        or_else = args[2] if len(args) > 2 else kwargs.get("or_else", "")
+        if isinstance(pc, (int, float)) and pc >= 100:
+            return draw("pow")
+        if isinstance(pc, (int, float)) and pc <= 0:
+            return or_else
+        if or_else != "":
+            return NotImplemented
+        return draw("optpow")
+    it.hooks["mathy_core/problems.py:maybe_power"] = h_maybe_power
+
+    def h_get_rand_vars(it2, info, args, kwargs):
+        n = args[0]
+        if not isinstance(n, int):
+            raise Unsupported("symbolic variable count")
+        return Lst([draw("var") for _ in range(n)])
+    it.hooks["mathy_core/problems.py:get_rand_vars"] = h_get_rand_vars
+
+
 def run_text(chk: Check, prog: Program) -> None:
     """Every random choice is forked (coin flips, small integer ranges) or kept as a symbol (numbers, variables); the text
     produced on each path is split into tokens (literals by the specification tokenizer, draws as Constant / Variable /
@@ -460,72 +604,7 @@ def run_text(chk: Check, prog: Program) -> None:
         f = mod.functions[name]
         for negative_numbers in (False, True):
             def body(it: Interp, f=f, kw=kw, negative_numbers=negative_numbers):
-                it.draws = 0
-
-                def draw(tag):
-                    it.draws += 1
-                    return Opaque(f"{tag}#{it.draws}", truthy=True)
-
-                def h_randint(it2, path, args, kwargs):
-                    if all(isinstance(a, int) for a in args):
-                        lo, hi = args
-                        if lo > hi:
-                            raise AbsRaise("ValueError", it2.site, "empty range for randrange()")
-                        if hi - lo <= 5:
-                            return lo + it2.choose(hi - lo + 1, f"randint({lo},{hi})#{len(it2.decisions)}",
-                                                   [str(x) for x in range(lo, hi + 1)])
-                    return draw("int")
-                it.hooks["ext:random.randint"] = h_randint
-                it.hooks["ext:random.shuffle"] = lambda it2, path, args, kwargs: None
-                it.hooks["ext:random.uniform"] = lambda it2, path, args, kwargs: 0.5
-                it.hooks["ext:random.random"] = lambda it2, path, args, kwargs: 0.5
-
-                def h_choice(it2, path, args, kwargs):
-                    items = args[0].items
-                    return items[it2.choose(len(items), f"choice#{len(it2.decisions)}")]
-                it.hooks["ext:random.choice"] = h_choice
-
-                def h_rand_bool(it2, info, args, kwargs):
-                    pc = args[0] if args else kwargs.get("percent_chance", 50)
-                    if isinstance(pc, (int, float)):
-                        if pc >= 100:
-                            return True
-                        if pc <= 0:
-                            return False
-                    return it2.choose(2, f"coin#{len(it2.decisions)}", ["heads", "tails"]) == 0
-                it.hooks["mathy_core/problems.py:rand_bool"] = h_rand_bool
-                it.hooks["mathy_core/problems.py:rand_number"] = lambda it2, info, args, kwargs: draw("neg" if negative_numbers else "num")
-                it.hooks["mathy_core/problems.py:rand_var"] = lambda it2, info, args, kwargs: draw("var")
-                it.hooks["mathy_core/problems.py:rand_op"] = lambda it2, info, args, kwargs: draw("op")
-
-                def h_maybe_number(it2, info, args, kwargs):
-                    pc = args[0] if args else kwargs.get("percent_chance", 80)
-                    or_else = args[1] if len(args) > 1 else kwargs.get("or_else", "")
-                    if isinstance(pc, (int, float)) and pc >= 100:
-                        return draw("neg" if negative_numbers else "num")
-                    if (isinstance(pc, (int, float)) and pc <= 0) or or_else != "":
-                        return NotImplemented
-                    return draw("optneg" if negative_numbers else "optnum")
-                it.hooks["mathy_core/problems.py:maybe_number"] = h_maybe_number
-
-                def h_maybe_power(it2, info, args, kwargs):
-                    pc = args[0] if args else kwargs.get("percent_chance", 80)
-                    or_else = args[2] if len(args) > 2 else kwargs.get("or_else", "")
-                    if isinstance(pc, (int, float)) and pc >= 100:
-                        return draw("pow")
-                    if isinstance(pc, (int, float)) and pc <= 0:
-                        return or_else
-                    if or_else != "":
-                        return NotImplemented
-                    return draw("optpow")
-                it.hooks["mathy_core/problems.py:maybe_power"] = h_maybe_power
-
-                def h_get_rand_vars(it2, info, args, kwargs):
-                    n = args[0]
-                    if not isinstance(n, int):
-                        raise Unsupported("symbolic variable count")
-                    return Lst([draw("var") for _ in range(n)])
-                it.hooks["mathy_core/problems.py:get_rand_vars"] = h_get_rand_vars
+                _install_generator_model(it, negative_numbers)
                 return it.call_function(f, [], dict(kw))
 
             n_paths = 0
